@@ -10,8 +10,12 @@ from vlib.core import run as sh
 
 MODULES = ["TLVerif.Props.C34"]
 THEOREMS = ["TLVerif.Props.C34." + t for t in [
-    "float_special_nan",
-]]
+    "utf8_valid_iff_wellformed", "string_valid_and_denotes", "string_invalid_is_base64_object", "base64_roundtrip",
+    "jlexer_unescape_sound", "string_roundtrip", "string_writer_injective", "uint_is_json_number", "int_is_json_number",
+    "uint32_roundtrip", "uint64_roundtrip", "int32_roundtrip", "int64_roundtrip", "uint_out_of_range_rejected",
+    "float_special", "float_class_fields"]]
+SOURCES = ["TLVerif.Jsonp." + m for m in ["Utf8", "Base64", "Writer", "Reader", "Driver", "Utf8Lemmas", "Base64Lemmas",
+                                          "StringLemmas", "NumLemmas", "FloatLemmas"]]
 
 
 def unhex(s):
@@ -81,10 +85,10 @@ def boundary_seqs():
 def string_inputs(c, rng):
     out = [b""]
     out += [bytes([a]) for a in range(256)]
-    # every 2-byte string (thorough) / every 2-byte string whose first byte is not plain ASCII + a sample (quick)
+    # every 2-byte string (thorough) / every 2-byte string that starts with a lead byte + a sample of the rest (quick)
     for a in range(256):
         for b in range(256):
-            if c.thorough or a >= 0x80 or a < 0x20 or a in (0x22, 0x5C) or rng.chance(1, 16):
+            if c.thorough or a >= 0xC0 or rng.chance(1, 4 if a >= 0x80 or a < 0x20 or a in (0x22, 0x5C) else 16):
                 out.append(bytes([a, b]))
     bs = boundary_seqs()
     out += bs
@@ -140,13 +144,15 @@ def float_patterns(c, rng, ebits, mbits):
     emax = (1 << ebits) - 1
     mmax = (1 << mbits) - 1
     for e in range(0, emax + 1):
-        ms = [0, 1, mmax, mmax - 1, 1 << (mbits - 1), rng.below(mmax + 1), rng.below(mmax + 1)]
+        ms = [0, 1, mmax, rng.below(mmax + 1)]
+        if c.thorough or ebits == 8:
+            ms += [mmax - 1, 1 << (mbits - 1), rng.below(mmax + 1)]
         if c.thorough:
             ms += [rng.below(mmax + 1) for _ in range(6)] + [(1 << rng.below(mbits)) for _ in range(3)]
         for m in ms:
             for s in (0, 1):
                 out.append((s << (ebits + mbits)) | (e << mbits) | m)
-    nrand = (1000000 if mbits == 52 else 300000) if c.thorough else 12000
+    nrand = (1000000 if mbits == 52 else 300000) if c.thorough else 8000
     for _ in range(nrand):
         out.append(rng.below(1 << (1 + ebits + mbits)))
     # short decimals, integers, powers of ten and two: values people actually send
@@ -286,7 +292,7 @@ def rand_float_special_input(rng):
 # ------------------------------------------------------------------ the check
 def run_check(c):
     c.facts(["Jsonp"])
-    c.lean(MODULES, THEOREMS)
+    c.lean(MODULES, THEOREMS, sources=SOURCES)
     model = c.model_exe()
     gen = c.harness("hjsonpgen", srcdir=os.path.join(ROOT, "go", "hjsonp", "gen"),
                     overlays={"internal/puregen/gengo/verif_jsonp_export.go": os.path.join(ROOT, "go", "hjsonp", "overlay", "verif_jsonp_export.go")})
@@ -321,6 +327,7 @@ def run_check(c):
         lines.append("jsonp.wf32 %08x" % p)
     for p in float_patterns(c, rng, 11, 52):
         lines.append("jsonp.wf64 %016x" % p)
+    rng.shuffle(lines)  # long strings are spread over the worker processes
     res1 = c.tie("writers", lines, impl, model, canon=canon)
     for l, a, _ in res1:
         oracle_writer(c, l, a)
@@ -382,6 +389,7 @@ def run_check(c):
     for _ in range(n2 // 6):
         lines2.append("jsonp.rf " + hx(rand_float_special_input(rng)))
     lines2 = list(dict.fromkeys(lines2))
+    rng.shuffle(lines2)
     res2 = c.tie("readers", lines2, impl, model)
     for l, a, _ in res2:
         if "DIFFERS" in a:
@@ -435,14 +443,14 @@ def run_check(c):
         if f[0] == "jsonp.u8" and a.startswith("ok ") and (a.split(" ")[1] == "1") != is_utf8(unhex(f[1])):
             c.oracle_fail(l, "utf8.Valid disagrees with the Unicode definition of well-formed UTF-8", l)
     c.extra["rule"] = (
-        "writers: every 1-byte string, every 2-byte string (%s), lead-byte x boundary-continuation sequences of length 1..4, every Unicode "
+        "writers: every 1-byte string, 2-byte strings (%s), lead-byte x boundary-continuation sequences of length 1..4, every Unicode "
         "scalar value (1024 per line), random valid UTF-8 of each length, random/damaged invalid strings of each length; integers: 10^k±1, "
         "2^k±1, type limits, random of each bit length; floats: every exponent x {0,1,max,mid,random} mantissas x both signs, random bit "
         "patterns, short decimals; readers: the implementation's own output + random tail, damaged output, grammar-random strings with all "
         "escape kinds / surrogates / bad escapes, base64 objects with damaged keys, separators, padding and newlines, number texts at every "
         "width limit ±1 in both token forms, special-float spellings; library: utf8 on all 1/2-byte strings + boundary sequences, EncodeRune "
         "on %s, utf16 pairs, base64. distinct = distinct line text; every line is a different input (non-trivial)."
-        % ("all" if c.thorough else "all with a non-plain first byte + 1/16 of the rest", "every code point" if c.thorough else "every 97th code point + boundaries"))
+        % ("all" if c.thorough else "all that start with a byte >= 0xC0 + 1/4 of those starting with another non-plain byte + 1/16 of the rest", "every code point" if c.thorough else "every 97th code point + boundaries"))
 
 
 def oracle_writer(c, l, a):
